@@ -43,6 +43,9 @@ def leaf_prog(leaf, q):
         "json": [["from", U], ["select", [k(ux)]], ["where", ["jsonop", "contains", ["f", "u", "j"], ["$dict", [["a", 1]]]]]],
         "jsondict": [["from", U], ["select", [["raw", {"$dict": [["a", "x\\y\"z'w"], ["b", [1, "q\\"]]]}], k(ux)]]],
         "jsondict_set": [["update", U], ["set", "j", ["raw", {"$dict": [["a", "x\\y\"z'w"]]}]], ["where", ["cmp", "=", uy, ["raw", "a\\b"]]]],
+        "orderalias": [["from", U], ["select", [k(["arith", "+", ux, ["raw", 1]])]], ["orderby", [k(["arith", "+", ux, ["raw", 1]])], "desc"]],
+        "setop_orderalias": [["from", U], ["select", [k(ux)]], ["union", {"calls": [["from", ["t", "v"]], ["select", [["f", "v", "x"]]]], "q": q}],
+                             ["orderby", [k(ux)], "asc"]],
         "groupalias": [["from", U], ["select", [k(["arith", "+", ux, ["raw", 1]])]], ["groupby", [k(["arith", "+", ux, ["raw", 1]])]]],
         "limit": [["from", U], ["select", [k(ux)]], ["orderby", [ux], "asc"], ["limit", 3], ["offset", 1]],
     }[leaf]
@@ -68,8 +71,9 @@ def embed(construct, inner, q, level):
     return {"calls": c, "q": q}
 
 
-NEUTRAL = {"ident", "value", "value2", "backslash", "json", "jsondict", "jsondict_set"}
-LEAVES = ["ident", "value", "value2", "backslash", "bool", "bool_crit", "array", "interval", "json", "jsondict", "jsondict_set", "groupalias", "limit"]
+NEUTRAL = {"ident", "value", "value2", "backslash", "json", "jsondict", "jsondict_set", "orderalias", "setop_orderalias"}
+LEAVES = ["ident", "value", "value2", "backslash", "bool", "bool_crit", "array", "interval", "json", "jsondict", "jsondict_set", "groupalias", "orderalias",
+          "setop_orderalias", "limit"]
 
 
 def chunks(tier, seed):
